@@ -87,6 +87,15 @@ PROPS = {
         rule=CHAIN_RULE + "; adversarial stream: negative / zero / 2^63 / 2^64 / 2^256-1 amounts, malformed and unregistered denominations, malformed token ids and contract addresses, vote entries without ':' or '/', deprecated and unknown topics, periods near 2^64; every history runs on through maturity, tally and slash window",
         assumptions=["panic sites are those of the generated inventory of x/settlement, x/oracle, app/ante, app/post, types (go/parser; every site must be accounted for in Inventory/Table.v); a panic deep inside a dependency is caught only dynamically",
                      "genesis-imported records are configuration: the theorem assumes the imported records satisfy rec_safe (the empty genesis does)"]),
+    'C07': dict(
+        theorems=['C07_miss_order_free', 'C07_reward_order_free', 'C07_tally_order_free', 'C07_missers_order_free', 'C07_step_is_a_function'],
+        runs=[chain('replica', 'replica', 40, 1200, 'check_C07'),
+              chain('settle', 'settlement', 16, 400, 'check_C07')],
+        fields=[3, 6, 10, 12, 13, 16, 17, 18],
+        inventory=[('map_ranges', 'range_table'), ('clock_sites', 'clock_table')],
+        rule=CHAIN_RULE + "; every history of the replica profile is executed twice on fresh application instances (Go randomises map iteration per loop) and the app hash is compared after every commit; histories hold several pending external NFTs, 3-5 voting validators and several miss counters",
+        assumptions=["goroutine timing and allocation addresses cannot be expressed in the model: for that clause the two executions are evidence, not proof",
+                     "map iteration sites are those of the generated inventory (go/parser heuristics: make(map), map literals, map-typed parameters / fields / function results); every site must be accounted for in Inventory/Table.v"]),
     'C08': dict(
         theorems=['C08_round_arithmetic', 'C08_tally_once_per_round', 'C08_round_info_current', 'C08_prevote_iff', 'C08_prevote_effect',
                   'C08_vote_iff', 'C08_vote_effect', 'C08_no_tally_elsewhere', 'C08_nothing_left_behind', 'C08_replayed_vote_rejected'],
@@ -144,6 +153,8 @@ LEVELS = {
                 note=PROOF_NOTE, technique="Coq proof: refinement of the coded tally to its specification (sum over distinct validators) + differential correspondence via vm_compute"),
     'C06': dict(text="Unbounded theorems: every record that enters the store through a transaction keeps a valid coin and at most one unit-weight recipient in every history (arbitrary oracle fills, faults), hence no coin construction or 256-bit product of the payout loop can panic; every handler of the model is total; the vote-entry parser with Go index expressions made explicit never indexes out of range; round arithmetic never divides by zero for accepted vote periods; the composed step never reports a panic. The panic-site inventory of the current source is regenerated on every run and must be fully accounted for by the model's table. Correspondence + panic observation on adversarial ABCI histories.",
                 note=PROOF_NOTE, technique="Coq proof: safety invariant over all histories + explicit-panic model of the parser + generated panic-site inventory obligation + adversarial differential runs"),
+    'C07': dict(text="The model step is a function; for each place where the code ranges over a Go map (generated inventory of the current source, fully accounted for) an unbounded theorem shows the computed result is the same for every permutation of the iterated collection: miss counting, reward sums, the tally decision (depends only on the validator set and the set of revealed triples) and the set of missers. The list that IS written to state (NFTs to verify) is a function of the store in store order. Every history is executed twice on the real app and the app hashes compared after every commit (evidence for the scheduling / address clause).",
+                note=PROOF_NOTE, technique="Coq proof: permutation invariance of every map-iteration site + generated map-range/clock inventory obligation + two executions per history on the real app"),
     'C08': dict(text="Unbounded theorems: uint64/int64 round arithmetic for every accepted vote period; in every block-structured history the stored round info is the round of the executing height; exact acceptance conditions of prevote and vote; the tally gate opens once per round, at its last block; no ballot survives a tally; a replayed vote is rejected. Correspondence on ABCI histories with messages at every window offset.",
                 note=PROOF_NOTE, technique="Coq proof: invariant over block-structured histories of the composed chain model + lia/nia arithmetic + differential correspondence"),
     'C10': dict(text="Unbounded theorems: recipients of a new record are exactly the on-chain owner (this chain), empty (supported external chain) or the record is rejected; transactions and environment never modify an existing record; an end-block changes a pending record only at a tally, only if it had no recipients and was created before the tallied round, only to the owner accepted for its NFT; set recipients are never overwritten; the published source list is exactly the unfilled records older than the cut-off.",
@@ -155,4 +166,4 @@ LEVELS = {
 }
 
 NOT_APPLICABLE = {p: "work in progress in this session: model exists, check not yet registered" for p in
-                  ['C03','C04','C07','C13','C16','C17','C18','C19','C20']}
+                  ['C03','C04','C13','C16','C17','C18','C19','C20']}
